@@ -104,3 +104,6 @@ Fixpoint list_eqb {A} (eqb : A -> A -> bool) (a b : list A) : bool :=
 
 Definition opt_bind {A B} (o : option A) (f : A -> option B) : option B :=
   match o with Some a => f a | None => None end.
+
+Lemma key_eq_dec (a b : key) : {a = b} + {a <> b}.
+Proof. decide equality; apply N.eq_dec. Qed.
